@@ -35,7 +35,7 @@ FLOORS = {"quick": {"histories": 25000, "exhaustive_core_histories": 20000, "ran
                     "alternation_events": 50000, "acks_judged": 80000, "positive_acks": 40000, "negative_acks": 15000,
                     "rejected_subscriptions": 5000, "policy_changes": 3000, "same_iteration_placements": 20000, "deadline_before_placements": 4000,
                     "deadline_after_placements": 4000, "reboot_with_subscribe_messages": 3000,
-                    "mesh_scenarios": 100, "mesh_final_checks_offerer": 150, "mesh_alternation_events": 1000}}
+                    "mesh_scenarios": 100, "mesh_final_checks_offerer": 90, "mesh_alternation_events": 600}}
 # system-level shards: the mesh workload of pv/mesh.py under this property's boundary monitors (reports of other monitors are dropped)
 MESH = {"want": ("converge",), "claim": ("mesh:offerer-does-not-converge", "mesh:subscription-listener-history"),
         "quick": (2, 60), "thorough": (16, 1500)}
